@@ -35,7 +35,8 @@ fn builder(c: &Case) -> SessionBuilder<C> {
 }
 
 /// Drives one SyncTest session. `nondet` = (X, k): the k-th simulation of frame X is perturbed.
-/// Returns (calls made, Some((call index, mismatched frames)) if a mismatch was reported, first call that simulated X).
+/// Returns (calls made, Some((call index, mismatched frames)) if a mismatch was reported, the call in which the
+/// deviating (k-th) simulation of X happened).
 fn drive(c: &Case, nondet: Option<(i32, u32)>, prop: &'static str, out: &mut Outcome) -> Option<(i32, Option<(i32, Vec<i32>)>, Option<i32>)> {
     let mut sess = match guarded(|| builder(c).start_synctest_session()) {
         Ok(Ok(s)) => s,
@@ -84,8 +85,8 @@ fn drive(c: &Case, nondet: Option<(i32, u32)>, prop: &'static str, out: &mut Out
                     return None;
                 }
                 for f in g.simulated_in_last_call().collect::<Vec<_>>() {
-                    if let (Some((x, _)), None) = (nondet, first_sim_call) {
-                        if f == x {
+                    if let (Some((x, k)), None) = (nondet, first_sim_call) {
+                        if f == x && g.sims(x) >= k {
                             first_sim_call = Some(call);
                         }
                     }
@@ -137,22 +138,32 @@ pub fn run_case(c: &Case) -> Outcome {
     }
     if c.cd >= 2 {
         for &x in &c.xs {
-            // every frame is simulated check_distance+1 times: the deviation may sit on any re-simulation
-            for k in 2..=(c.cd as u32 + 1) {
+            // frame X is simulated min(check_distance, X)+1 times (rollbacks start at call check_distance+1 and never go
+            // below frame 1): the deviation may sit on the first simulation or on any re-simulation
+            for k in 1..=(c.cd.min(x as usize) as u32 + 1) {
                 out.count("nondeterministic_runs", 1);
                 let Some((_, det, first)) = drive(c, Some((x, k)), "C13", &mut out) else { return out };
-                let Some(first) = first else {
-                    out.inconclusive("frame X never simulated");
+                let Some(dev_call) = first else {
+                    out.inconclusive("the deviating simulation never happened");
                     return out;
                 };
+                if x < c.cd as i32 {
+                    out.count("deviations_before_the_first_rollback", 1);
+                }
                 match det {
+                    None if k == 1 && x >= c.cd as i32 => {
+                        // history class of the open finding F8: the deviating simulation is the FIRST one of a frame that is
+                        // simulated once rollbacks have begun; its result is rolled back over by the next call before it is
+                        // ever saved, so no checksum of it exists. Recorded, and the remaining placements are still explored.
+                        out.violate(viol("non-determinism not reported", format!("the first simulation of frame {x} differs from all its re-simulations, no MismatchedChecksum in {} calls [first simulation of a frame at or after the first rollback (frame >= check distance {}): its result is never saved]", c.frames, c.cd)));
+                        continue;
+                    }
                     None => {
                         out.violate(viol("non-determinism not reported", format!("the {k}-th simulation of frame {x} differs, no MismatchedChecksum in {} calls", c.frames)));
                         return out;
                     }
                     Some((call, frames)) => {
-                        // the k-th (deviating) simulation of X happens k-1 calls after the first one
-                        let lag = call - (first + k as i32 - 1);
+                        let lag = call - dev_call;
                         out.count(&format!("detection_lag_calls_after_deviation_{lag:02}"), 1);
                         if lag > c.cd as i32 + 2 {
                             out.violate(viol("non-determinism reported too late", format!("k={k} X={x}: reported {lag} calls after the deviating simulation (check distance {})", c.cd)));
@@ -188,9 +199,9 @@ fn grid(ctx: &Ctx, for_c02: bool) -> Vec<Case> {
                         let xs: Vec<i32> = if for_c02 {
                             vec![]
                         } else if ctx.quick() {
-                            { let mut v = vec![cd as i32, cd as i32 + 1]; for _ in 0..6 { v.push(cd as i32 + 2 + r.below(56) as i32); } v }
+                            { let mut v: Vec<i32> = (1..=cd as i32 + 1).collect(); for _ in 0..6 { v.push(cd as i32 + 2 + r.below(56) as i32); } v }
                         } else {
-                            (cd as i32..=60).collect()
+                            (1..=60).collect()
                         };
                         v.push(Case { np, mp, cd, delay, sparse, frames: if ctx.quick() { 150 } else { 300 }, xs, seed: r.next() });
                     }
@@ -230,7 +241,7 @@ pub fn check(ctx: &Ctx) -> i32 {
     extra.insert("grid".into(), json!("players 1..=4 x window 0..=12 x check_distance 0..=13 x delay (quick {0,1,3,8}, thorough 0..=8) x sparse flag; every point is visited"));
     let meta = Meta {
         level: "exploration",
-        rule: "exhaustive grid of builder configurations: invalid ones (check_distance >= window, sparse saving) must be rejected with InvalidRequest, valid ones are run for 150 (quick) / 300 (thorough) frames with unique random inputs on a deterministic game (no MismatchedChecksum, request contract, every input Confirmed and equal to the submission delayed as configured) and, for check_distance >= 2, with a game whose k-th simulation (every k in 2..=check_distance+1) of frame X is perturbed, X over a placement set (quick: 8 placements, thorough: every X in check_distance..=60): MismatchedChecksum must follow within check_distance+2 calls of the deviating simulation and name X+1 as first affected frame. Non-trivial: rejected invalid configuration, or valid configuration with check_distance >= 2 (comparison active) and >= 100 frames. Distinct: grid point.".into(),
+        rule: "exhaustive grid of builder configurations: invalid ones (check_distance >= window, sparse saving) must be rejected with InvalidRequest, valid ones are run for 150 (quick) / 300 (thorough) frames with unique random inputs on a deterministic game (no MismatchedChecksum, request contract, every input Confirmed and equal to the submission delayed as configured) and, for check_distance >= 2, with a game whose k-th simulation (every k in 1..=min(check_distance, X)+1, i.e. the first simulation or any re-simulation) of frame X is perturbed, X over a placement set (quick: every X in 1..=check_distance+1, i.e. including the frames simulated before the first rollback, plus 6 random placements up to 60; thorough: every X in 1..=60): MismatchedChecksum must follow within check_distance+2 calls of the deviating simulation and name X+1 as first affected frame. Non-trivial: rejected invalid configuration, or valid configuration with check_distance >= 2 (comparison active) and >= 100 frames. Distinct: grid point.".into(),
         assumptions: vec!["harness game is deterministic unless told otherwise".into(), "held on the executions produced, not verified".into()],
         floor_nontrivial: 500,
         exhaustive: Some(true),
